@@ -514,9 +514,12 @@ def run(ctx):
     hist = Counter()
     plan = [('life', ctx.n(260, 3200), ctx.n(16, 60)), ('malformed', ctx.n(110, 1200), ctx.n(16, 50)),
             ('decimal', ctx.n(60, 600), ctx.n(16, 50))]
+    import time as _time
     for stream, ncases, max_ops in plan:
+        t_0 = _time.time()
         cases = [gen_case(ctx.rng, actions, max_ops, stream) for _ in range(ncases)]
-        traces, crash = run_impl(ctx, cases, workers=ctx.n(4, 8))
+        traces, crash = run_impl(ctx, cases, workers=ctx.n(6, 8))
+        t_1 = _time.time()
         if crash:
             ctx.broken('correspondence', stream, crash.get('stderr', crash))
             continue
@@ -542,6 +545,8 @@ def run(ctx):
                             'model_trace': model[-6000:]})
         ctx.count(stream, len(cases), [json.dumps(t, sort_keys=True) for t in traces],
                   ops=sum(len(t) for t in traces))
+        ctx.log(f'{stream}: {len(cases)} cases, {sum(len(t) for t in traces)} ops; implementation {t_1 - t_0:.0f}s, '
+                f'oracle+model {_time.time() - t_1:.0f}s')
         if cases:
             ctx.sample({'stream': stream, 'case': cases[0],
                         'trace': [[e['resp'], [h['m'] for h in e['handed']]] for e in traces[0]]})
